@@ -5,6 +5,7 @@ from props import common, mix
 THM = "NextestModel.Thm.C07"
 THM_EXTRA = ["NextestModel.Thm.C07Unit"]
 GEN = []
+CHECK_MODULES = ["NextestModel.Lemmas.Unit", "NextestModel.Model.Unit", "NextestModel.Lemmas.Attempts", "NextestModel.Model.Attempts"]
 TRUSTED = ["model: Model/Classify (BackoffIter over exact nanoseconds); f64 rounding of Duration::mul_f64 tolerated to 2 ns; the rand jitter sample is not modelled (bounds are checked on the implementation's values)"]
 ASSUMPTIONS = ["PARTIAL: the attempt loop itself (retry after each failed attempt until a pass or N+1 attempts, never after a pass, never once cancelled, delay respected with pauses excluded) is executor behaviour, exercised end-to-end only (pending); --retries replacing every policy is C06.cli_retries_wins plus the end-to-end engine"]
 
